@@ -64,6 +64,8 @@ pub struct Config {
     /// on-disk content of the lower layers, lowest first
     pub lowers: Vec<Tree>,
     pub depth: usize,
+    /// non-empty initial contents of the top layer to start from as well (besides the empty one)
+    pub init_tops: Vec<Tree>,
 }
 
 impl Config {
@@ -129,7 +131,26 @@ impl Config {
         vec!["a".to_string(), "d/a".to_string(), format!("d/b{}", self.sfx()), "d/e/c".to_string()]
     }
     fn payloads(&self) -> Vec<Vec<u8>> {
-        vec![vec![], vec![7], vec![0x41; 40], crate::lzfam::norepeat(40, 9)]
+        // payload 4 is itself a complete compressed stream of the game's codec
+        vec![vec![], vec![7], vec![0x41; 40], crate::lzfam::norepeat(40, 9), self.encode_stored(&[0x41; 40])]
+    }
+    /// top-layer content holding, for every write path, siblings that share its stem or extend
+    /// its name (a writer that stages through a temporary / backup sibling would consume them)
+    pub fn sibling_top(&self) -> Tree {
+        let mut t = Tree::new();
+        for p in self.write_paths().into_iter().chain([format!("e{}", self.sfx())]) {
+            let cs = comps(&p);
+            for i in 1..cs.len() {
+                t.insert(cs[..i].join("/"), Node::Dir);
+            }
+            let stem_ext = std::path::Path::new(&p).with_extension("tmp").display().to_string();
+            for (k, sib) in [stem_ext, format!("{}.tmp", p), format!("{}.bak", p), format!("{}~", p)].into_iter().enumerate() {
+                if sib != p && !t.contains_key(&sib) {
+                    t.insert(sib.clone(), Node::File(format!("sibling{}:{}", k, sib).into_bytes()));
+                }
+            }
+        }
+        t
     }
     fn small_archive(&self) -> Content {
         let mut c = Content::new(self.endian());
@@ -168,7 +189,8 @@ pub struct Scratch {
 impl Scratch {
     fn new(base: &Path) -> Scratch {
         let n = SCRATCH_N.fetch_add(1, Ordering::Relaxed);
-        let root = base.join(format!("s{}", n));
+        // the layer roots contain multi-byte characters (byte length != character count)
+        let root = base.join(format!("s{}_日本é", n));
         let _ = std::fs::remove_dir_all(&root);
         std::fs::create_dir_all(&root).expect("scratch");
         Scratch { root }
@@ -637,7 +659,9 @@ impl System for Sys {
     type Action = Op;
 
     fn init(&self) -> Vec<St> {
-        vec![St { top: Tree::new() }]
+        let mut v = vec![St { top: Tree::new() }];
+        v.extend(self.cfg.init_tops.iter().map(|t| St { top: t.clone() }));
+        v
     }
     fn key(&self, s: &St) -> Tree {
         s.top.clone()
@@ -646,7 +670,7 @@ impl System for Sys {
         let mut v = Vec::new();
         let paths = self.cfg.write_paths();
         for (i, p) in paths.iter().enumerate() {
-            let payloads: Vec<usize> = if i == 2 { vec![0, 1, 2, 3] } else { vec![0, 1] };
+            let payloads: Vec<usize> = if i == 2 { vec![0, 1, 2, 3, 4] } else { vec![0, 1] };
             for pi in payloads {
                 v.push(Op::Write(p.clone(), pi, false));
                 if comps(p).len() >= 2 {
@@ -881,13 +905,27 @@ fn lower_choices(probe: &Config) -> Vec<(&'static str, Tree)> {
         }
         locd.insert(cs.join("/"), file(b"lowLocalized"));
     }
+    // ... and the locations the OTHER languages of this game would address (a look-up must
+    // never fall back to them)
+    for lang in ref_loc::LANGS {
+        if let Some(p) = ref_loc::expected(probe.loc, lang, "d/a") {
+            let cs = comps(&p);
+            let full = cs.join("/");
+            if !locd.contains_key(&full) {
+                for i in 1..cs.len() {
+                    locd.entry(cs[..i].join("/")).or_insert(Node::Dir);
+                }
+                locd.insert(full, file(format!("other language {:?}", lang).as_bytes()));
+            }
+        }
+    }
     v.push(("localized d/a", locd));
     v
 }
 
 pub fn configs(tier: Tier) -> Vec<Config> {
     let mut out = Vec::new();
-    let mk = |loc: Loc, lang: Lang, lowers: Vec<Tree>, name: String, depth: usize| Config { name, loc, lang, lowers, depth };
+    let mk = |loc: Loc, lang: Lang, lowers: Vec<Tree>, name: String, depth: usize| Config { name, loc, lang, lowers, depth, init_tops: vec![] };
     for (loc, lang) in [(Loc::FE10, Lang::German), (Loc::FE14, Lang::EnglishNA)] {
         let probe = mk(loc, lang, vec![], String::new(), 0);
         let typed = typed_layer(loc, &probe);
@@ -900,6 +938,12 @@ pub fn configs(tier: Tier) -> Vec<Config> {
         out.push(mk(loc, lang, vec![typed.clone()], format!("{:?}/{:?} layers=[typed]", loc, lang), d1 + 1));
         for (cn, c) in &choices {
             out.push(mk(loc, lang, vec![typed.clone(), c.clone()], format!("{:?}/{:?} layers=[typed, {}]", loc, lang, cn), d2));
+        }
+        // start from a populated top layer: temporary/backup-style siblings of every write path
+        {
+            let mut c = mk(loc, lang, vec![typed.clone(), choices[1].1.clone()], format!("{:?}/{:?} layers=[typed, a] top starts with .tmp/.bak/~ siblings", loc, lang), d1);
+            c.init_tops = vec![probe.sibling_top()];
+            out.push(c);
         }
         // three and four layers
         let combos: Vec<Vec<usize>> = match tier {
@@ -965,13 +1009,63 @@ fn scale_script(sys: &Sys, o: &mut Outcome) -> u64 {
                 }
             }
         }
+        // many distinct paths through ONE filesystem instance (a per-instance memo of paths
+        // must not recycle entries wrongly): write all, then revisit all, then overwrite the first
+        let many = 1500usize;
+        let content = |i: usize, gen: u8| -> Vec<u8> { vec![gen, (i % 251) as u8, (i / 251) as u8, 0x5A] };
+        for loc in [true, false] {
+            let tag = if loc { "L" } else { "U" };
+            for i in 0..many {
+                let p = format!("many{}/f{:04}.bin", tag, i);
+                if let Err(e) = w.fs.write(&p, &content(i, 1), loc) {
+                    out.push(("scale:many-paths:write-failed".to_string(), format!("write({:?}, localized={}) failed: {}", p, loc, e)));
+                    break;
+                }
+            }
+            for round in 0..2 {
+                for i in 0..many {
+                    let p = format!("many{}/f{:04}.bin", tag, i);
+                    let gen = if round == 1 && i < 7 { 2 } else { 1 };
+                    match w.fs.read(&p, loc) {
+                        Ok(b) if b == content(i, gen) => {}
+                        other => {
+                            out.push(("scale:many-paths:read".to_string(), format!("after {} distinct paths on one instance, read({:?}, localized={}) = {:?}, expected {:?}", many, p, loc, other.map_err(|e| e.to_string()), content(i, gen))));
+                            break;
+                        }
+                    }
+                    if !matches!(w.fs.file_exists(&p, loc), Ok(true)) {
+                        out.push(("scale:many-paths:file_exists".to_string(), format!("file_exists({:?}, localized={}) is not true", p, loc)));
+                        break;
+                    }
+                    if let Some(actual) = sys.actual(&p, loc) {
+                        let on_disk = std::fs::read(w.roots[w.roots.len() - 1].join(norm(&actual))).ok();
+                        if on_disk != Some(content(i, gen)) {
+                            out.push(("scale:many-paths:on-disk".to_string(), format!("the file written through {:?} (localized={}) is not at {:?} with its own content", p, loc, actual)));
+                            break;
+                        }
+                    }
+                }
+                if round == 0 {
+                    for i in 0..7 {
+                        let p = format!("many{}/f{:04}.bin", tag, i);
+                        let _ = w.fs.write(&p, &content(i, 2), loc);
+                    }
+                }
+            }
+            // the (unlocalized, recursive) listing of the directory against the independent walker
+            let want: Vec<String> = list_in(&snapshot(&w.roots[w.roots.len() - 1]), &format!("many{}", tag), None).into_iter().collect();
+            let listed = w.fs.list(&format!("many{}", tag), None, false).map_err(|e| e.to_string());
+            if listed.as_ref().ok() != Some(&want) || want.len() < many {
+                out.push(("scale:many-paths:list".to_string(), format!("list(many{}) has {:?} entries, the directory walk {}", tag, listed.map(|v| v.len()), want.len())));
+            }
+        }
         Ok(out)
     });
     match r {
         Err(p) => o.violate(format!("panic@{}:scale", p.location), format!("[{}] scale script panicked: {}", sys.cfg.name, p.message), json!({"scale_script": sys.cfg.name})),
         Ok(Err(e)) => o.machinery(format!("scale script: {}", e)),
         Ok(Ok(v)) => {
-            steps = 30;
+            steps = 30 + 2 * 1500 * 3;
             for (sig, summary) in v {
                 o.violate(sig, format!("[{}] {}", sys.cfg.name, summary), json!({"scale_script": sys.cfg.name}));
             }
